@@ -1,4 +1,5 @@
 import DFV.Json
+import DFV.Model.C01
 namespace DFV.Drv
 open Lean DFV
 
@@ -24,6 +25,8 @@ def c01 (op : String) (j : Json) : Option (R Json) :=
       pure (Json.mkObj [("cell", ratsJ m.cell), ("len", .num (JsonNumber.fromNat m.len)),
         ("cells", listJ ratsJ m.cells), ("vertices", listJ ratsJ m.vertices),
         ("indices", listJ natsJ (indicesCode m.n)), ("iter", listJ ratsJ m.iter),
+        ("coord", listJ ratsJ ((indicesCode m.n).map m.coordField)),
+        ("dV", ratToJson m.dV), ("volume", ratToJson m.region.volume),
         ("indices_spec", .bool (indicesCode m.n == indicesF m.n))])
   | "mesh_info_big" => some do
       let m ← meshOfJson (← fld j "mesh")
@@ -31,6 +34,7 @@ def c01 (op : String) (j : Json) : Option (R Json) :=
       let cs := m.cells
       let vs := m.vertices
       pure (Json.mkObj [("cell", ratsJ m.cell), ("len", .num (JsonNumber.fromNat m.len)),
+        ("dV", ratToJson m.dV), ("volume", ratToJson m.region.volume),
         ("ax_len", listJ natsJ [cs.map List.length, vs.map List.length]),
         ("cells_at", listJ ratsJ (idxs.map fun i => tab m.ndim fun a => (cs.getD a []).getD (i.getD a 0) 0)),
         ("verts_at", listJ ratsJ (idxs.map fun i => tab m.ndim fun a => (vs.getD a []).getD (i.getD a 0) 0))])
